@@ -33,8 +33,9 @@ class DDSPathUtils(object):
                     f"Provided path {p} is not absolute. All paths must be absolute",
                     DDSErrorCode.PATH_NOT_ABSOLUTE,
                 )
-            # TODO: more checks
-            return DDSPath(p)
+            # One spelling per path: '/a//b' and '/a/b/' are the path '/a/b' (the stores would otherwise
+            # disagree on whether they are the same path)
+            return DDSPath("/" + "/".join([s for s in p.split("/") if s]))
         if isinstance(p, pathlib.Path):
             if not p.is_absolute():
                 raise DDSException(
